@@ -392,51 +392,51 @@ Proof.
   rewrite slice_slice by lia. f_equal; lia.
 Qed.
 
-(* read across fileOffset when the file ends at fileOffset *)
-Lemma read_cross_part F W fl uw off k :
-  off <= len F -> fl + k <= uw ->
-  drop off F ++ slice W fl (fl + k) = slice (take (len F) F ++ slice W fl uw) off (len F + k).
+(* read across fileOffset: the file part is clamped to fileOffset, the rest comes from the buffer *)
+Lemma read_cross_part F fo W fl uw off k :
+  off <= fo -> fo <= len F -> fl + k <= uw ->
+  take (fo - off) (drop off F) ++ slice W fl (fl + k) = slice (take fo F ++ slice W fl uw) off (fo + k).
 Proof.
-  intros H1 H2. rewrite take_all.
-  rewrite slice_app_mid by lia. f_equal.
-  replace (len F + k - len F) with k by lia.
-  rewrite take_slice. f_equal. lia.
+  intros H0 H1 H2.
+  rewrite slice_app_mid by (rewrite len_take; lia). rewrite len_take. f_equal.
+  - rewrite drop_take. reflexivity.
+  - replace (fo + k - N.min fo (len F)) with k by lia.
+    rewrite take_slice. f_equal. lia.
 Qed.
 
 Lemma h_readat_spec h F n off :
   hwf h F -> 0 < n ->
-  h_tail h F && (off <? h_fo h) && (h_fo h <? off + n) = false ->
   h_readat_ h F n off = spec_read (content h F) n off.
 Proof.
-  intros W NP NR. pose proof (len_content _ _ W) as LC.
+  intros W NP. pose proof (len_content _ _ W) as LC.
   unfold h_readat_, spec_read. rewrite LC.
   destruct (N.ltb_spec (h_offset h) off) as [L0|L0]; [reflexivity|].
   destruct W. unfold h_offset in *. unfold content.
   destruct (N.ltb_spec off (h_fo h)) as [L1|L1].
   - unfold freadat.
     destruct (N.ltb_spec (h_fo h) (off + n)) as [L2|L2].
-    + (* across fileOffset: there is no tail *)
-      rewrite andb_true_r, andb_true_r in NR. unfold h_tail in NR. apply N.ltb_ge in NR.
-      assert (EF : len F = h_fo h) by (clear - NR wf_fo0; lia).
-      assert (ED : take n (drop off F) = drop off F) by (apply take_ge; rewrite len_drop; clear - EF L2; lia).
-      rewrite ED. rewrite len_drop.
-      replace (0 <? n - (len F - off)) with true by (symmetry; apply N.ltb_lt; clear - EF L1 L2; lia).
-      set (k2 := N.min (n - (len F - off)) (h_uw h - h_fl h - 0)).
+    + (* across fileOffset *)
+      replace (N.min n (h_fo h - off)) with (h_fo h - off) by (clear - L1 L2; lia).
+      assert (LD : len (take (h_fo h - off) (drop off F)) = h_fo h - off)
+        by (rewrite len_take, len_drop; clear - L1 wf_fo0; lia).
+      rewrite LD.
+      replace (0 <? n - (h_fo h - off)) with true by (symmetry; apply N.ltb_lt; clear - L1 L2; lia).
+      set (k2 := N.min (n - (h_fo h - off)) (h_uw h - h_fl h - 0)).
       assert (K2 : h_fl h + k2 <= h_uw h) by (unfold k2; clear - wf_fl0; lia).
-      assert (OF : off <= len F) by (clear - EF L1; lia).
-      pose proof (read_cross_part F (h_wbuf h) (h_fl h) (h_uw h) off k2 OF K2) as RC.
-      rewrite EF in RC.
+      assert (OF : off <= h_fo h) by (clear - L1; lia).
+      pose proof (read_cross_part F (h_fo h) (h_wbuf h) (h_fl h) (h_uw h) off k2 OF wf_fo0 K2) as RC.
       replace (N.min n (h_fo h + (h_uw h - h_fl h) - off)) with (h_fo h - off + k2)
-        by (unfold k2; clear - EF L1 L2 wf_fl0; lia).
+        by (unfold k2; clear - L1 L2 wf_fl0; lia).
       replace (off + (h_fo h - off + k2)) with (h_fo h + k2) by (clear - L1; lia).
       rewrite <- RC. rewrite N.add_0_r.
       f_equal.
       * f_equal. destruct (N.ltb_spec 0 k2); auto.
         rewrite slice_empty; auto. clear - H. lia.
-      * unfold k2. clear - EF L1 L2.
-        destruct (N.eqb_spec (N.min (n - (len F - off)) (h_uw h - h_fl h - 0)) (n - (len F - off)));
-        destruct (N.ltb_spec (h_fo h - off + N.min (n - (len F - off)) (h_uw h - h_fl h - 0)) n); auto; lia.
+      * unfold k2. clear - L1 L2.
+        destruct (N.eqb_spec (N.min (n - (h_fo h - off)) (h_uw h - h_fl h - 0)) (n - (h_fo h - off)));
+        destruct (N.ltb_spec (h_fo h - off + N.min (n - (h_fo h - off)) (h_uw h - h_fl h - 0)) n); auto; lia.
     + (* entirely in the file *)
+      replace (N.min n (h_fo h - off)) with n by (clear - L2; lia).
       destruct (read_file_part F (h_fo h) (h_wbuf h) (h_fl h) (h_uw h) n off wf_fo0 L2) as [RF RL].
       rewrite RL. replace (0 <? n - n) with false by (symmetry; apply N.ltb_ge; clear; lia).
       replace (N.min n (h_fo h + (h_uw h - h_fl h) - off)) with n by (clear - L2; lia).
@@ -709,17 +709,14 @@ Proof.
   destruct (N.ltb_spec (len F) off) as [L|L]; [reflexivity|].
   destruct (N.ltb_spec off (len F)) as [L1|L1].
   - unfold freadat.
-    assert (LD : len (take n (drop off F)) = N.min n (len F - off)) by (rewrite len_take, len_drop; reflexivity).
-    rewrite LD. rewrite slice_plus.
-    destruct (N.ltb_spec 0 (n - N.min n (len F - off))) as [P|P].
-    + rewrite N.sub_0_r, N.min_0_r. cbn [N.ltb N.compare]. rewrite app_nil_r.
-      replace (N.min n (len F - off)) with (len F - off) by (clear - P; lia).
-      f_equal.
-      * rewrite slice_plus. rewrite (take_ge n) by (rewrite len_drop; clear - P; lia).
-        rewrite (take_ge (len F - off)) by (rewrite len_drop; clear; lia). reflexivity.
-      * clear - P L1.
-        destruct (N.eqb_spec 0 (n - (len F - off))); destruct (N.ltb_spec (len F - off) n); auto; lia.
-    + replace (N.min n (len F - off)) with n by (clear - P; lia). rewrite N.ltb_irrefl, slice_plus. reflexivity.
+    set (m := N.min n (len F - off)).
+    assert (LD : len (take m (drop off F)) = m) by (rewrite len_take, len_drop; unfold m; clear; lia).
+    rewrite LD, N.ltb_irrefl.
+    destruct (N.ltb_spec 0 (n - m)) as [P|P].
+    + rewrite N.sub_0_r, N.min_0_r. cbn [N.ltb N.compare]. rewrite app_nil_r. f_equal.
+      * symmetry. apply slice_plus.
+      * clear - P. destruct (N.eqb_spec 0 (n - m)); destruct (N.ltb_spec m n); auto; lia.
+    + f_equal; [symmetry; apply slice_plus|symmetry; apply N.ltb_ge; clear - P; lia].
   - change (len []) with 0. rewrite N.sub_0_r.
     replace (0 <? n) with true by (symmetry; apply N.ltb_lt; exact NP).
     replace (0 - (off - len F)) with 0 by (clear; lia). rewrite N.min_0_r. cbn [N.ltb N.compare app].
